@@ -57,6 +57,8 @@ def scenarios(ctx):
             w["stale_phase"] = rng.choice(["PS", "HP"])    # the input VCF already carries unrelated phase statements
         if rng.random() < 0.3:
             w["gt_desc"] = True                            # unphased heterozygous genotypes written 1/0
+        if rng.random() < 0.2:
+            w["phase_vcf"] = True                          # a phased VCF (true haplotypes, blocks) as an additional phase input
         if ns == 1 and rng.random() < 0.15:
             o["ignore_rg"] = True          # --ignore-read-groups: read groups absent or naming somebody else
         scs.append({"world": w})
